@@ -27,10 +27,17 @@ thread_local! {
     static LIVE: Cell<[(usize, usize); SLOTS]> = const { Cell::new([(0, 0); SLOTS]) };
     static LIVE_N: Cell<usize> = const { Cell::new(0) };
     static OVERFLOW: Cell<bool> = const { Cell::new(false) };
+    /// Environment deviation: inside subject calls, allocations larger than this many bytes fail (0 = off).
+    static FAIL_ABOVE: Cell<usize> = const { Cell::new(0) };
 }
 
 unsafe impl GlobalAlloc for Counting {
     unsafe fn alloc(&self, l: Layout) -> *mut u8 {
+        if let Ok(true) = FAIL_ABOVE.try_with(|f| f.get() != 0 && l.size() > f.get()) {
+            if in_subject() {
+                return std::ptr::null_mut();
+            }
+        }
         let p = System.alloc(l);
         // try_with: thread teardown
         let _ = WINDOW.try_with(|w| {
@@ -125,6 +132,15 @@ pub fn harness<R>(f: impl FnOnce() -> R) -> R {
 /// Inside a subject call (an attribution window) and not inside a harness guard.
 pub fn in_subject() -> bool {
     WINDOW.with(|w| w.get()) > 0 && HARNESS.with(|h| h.get()) == 0
+}
+/// Make allocations above `bytes` fail inside subject calls (0 switches it off again).
+pub fn fail_above(bytes: usize) {
+    FAIL_ABOVE.with(|f| f.set(bytes));
+}
+/// Size of the largest live table allocation of this thread.
+pub fn live_max_bytes() -> usize {
+    let n = LIVE_N.with(|c| c.get());
+    LIVE.with(|live| unsafe { (&(*live.as_ptr()))[..n].iter().map(|e| e.1).max().unwrap_or(0) })
 }
 pub fn allocs() -> u64 {
     N_ALLOC.with(|c| c.get())
